@@ -37,7 +37,10 @@ func PeriodsIntersect(p1, p2 *time.Period) bool {
 	p1lower, p1upper := cutPeriod(p1)
 	p2lower, p2upper := cutPeriod(p2)
 
-	return p1lower.CompareTo(p2upper) < 0 &&
+	// an empty period such as [4, 4) encloses no non-empty period, so it intersects nothing
+	return p1lower.CompareTo(p1upper) < 0 &&
+		p2lower.CompareTo(p2upper) < 0 &&
+		p1lower.CompareTo(p2upper) < 0 &&
 		p2lower.CompareTo(p1upper) < 0
 }
 
